@@ -625,29 +625,36 @@ class PVLParser(object):
                 f'but found: "{t}"'
             )
         set_seq = list()
-        # Initial WSC and/or empty
-        if self.parse_WSC_until(delimiters[1], tokens):
-            return set_seq
+        try:
+            # Initial WSC and/or empty
+            if self.parse_WSC_until(delimiters[1], tokens):
+                return set_seq
 
-        # First item:
-        set_seq.append(self.parse_value(tokens))
-        if self.parse_WSC_until(delimiters[1], tokens):
-            return set_seq
+            # First item:
+            set_seq.append(self.parse_value(tokens))
+            if self.parse_WSC_until(delimiters[1], tokens):
+                return set_seq
 
-        # Remaining items, if any
-        for t in tokens:
-            # print(f'in loop, t: {t}, set_seq: {set_seq}')
-            if t == ",":
-                self.parse_WSC_until(None, tokens)  # consume WSC after ','
-                set_seq.append(self.parse_value(tokens))
-                if self.parse_WSC_until(delimiters[1], tokens):
-                    return set_seq
-            else:
-                tokens.send(t)
-                tokens.throw(
-                    ValueError,
-                    "While parsing, expected a comma (,)" f'but found: "{t}"',
-                )
+            # Remaining items, if any
+            for t in tokens:
+                # print(f'in loop, t: {t}, set_seq: {set_seq}')
+                if t == ",":
+                    self.parse_WSC_until(None, tokens)  # consume WSC after ','
+                    set_seq.append(self.parse_value(tokens))
+                    if self.parse_WSC_until(delimiters[1], tokens):
+                        return set_seq
+                else:
+                    tokens.send(t)
+                    tokens.throw(
+                        ValueError,
+                        "While parsing, expected a comma (,)"
+                        f'but found: "{t}"',
+                    )
+        except StopIteration:
+            # An item was expected, but the tokens ran out.  This must not
+            # reach parse_assignment_statement() as a StopIteration, which
+            # would mean that the value after the equals sign is missing.
+            pass
 
         raise ParseError(
             f'Ran out of tokens before the closing "{delimiters[1]}" '
